@@ -156,7 +156,9 @@ class MappingIsoparametric(Mapping):
 
     def invF(self, x, tind=None, newton_max_iters=50, newton_tol=1e-12):
         """Newton iteration for evaluating inverse isoparametric mapping."""
-        X = np.zeros(x.shape) + .5
+        # start from the centroid of the reference cell (the centre of the
+        # unit box lies outside the reference tetrahedron)
+        X = np.zeros(x.shape) + self.elem.refdom.p.mean(axis=1)[:, None, None]
         for _ in range(newton_max_iters):
             F = self.F(X, tind)
             invDF = self.invDF(X, tind)
